@@ -137,9 +137,20 @@ def gen_burst(rng, cfg, nss, n=None):
             kind = 'send'
         else:
             kind = 'emit'
-        msgs.append({'kind': kind, 'ev': 'message' if kind == 'send' else gen_event(rng), 'data': gen_data(rng),
-                     'ns': rng.choice(nss), 'cb': kind == 'call' or rng.random() < 0.5, 'ret': gen_data(rng),
-                     'coro': rng.random() < 0.5})
+        m = {'kind': kind, 'ev': 'message' if kind == 'send' else gen_event(rng), 'data': gen_data(rng),
+             'ns': rng.choice(nss), 'cb': kind == 'call' or rng.random() < 0.5, 'ret': gen_data(rng),
+             'coro': rng.random() < 0.5}
+        if msgs and rng.random() < 0.2:
+            # the application sends the very same object again
+            m['data'] = C.unjsonable(C.jsonable(msgs[-1]['data']))
+            m['same_data'] = True
+        if msgs and rng.random() < 0.2:
+            # the handler returns the very same (stored) object again
+            m['ret'] = C.unjsonable(C.jsonable(msgs[-1]['ret']))
+            m['same_ret'] = True
+            if msgs[-1]['cb']:
+                m['cb'] = True
+        msgs.append(m)
     return {'side': side, 'msgs': msgs}
 
 
@@ -158,6 +169,14 @@ def corner_bursts(cfg, nss):
                          'coro': i % 2 == 0})
         for i in range(0, len(msgs), 8):
             out.append({'side': side, 'msgs': msgs[i:i + 8]})
+        # one object, sent three times and returned three times (emit, send, call)
+        obj = [{'k': b'\x01\x02', 'l': [b'', 'x']}, [b'\x03']]
+        tup = ({'d': [b'\x04']}, b'\x05')
+        reuse = []
+        for i, kind in enumerate(['emit', 'send', 'call' if (side == 'client' or cfg['async_handlers']) else 'emit']):
+            reuse.append({'kind': kind, 'ev': 'message' if kind == 'send' else 'again', 'data': obj, 'ns': nss[-1],
+                          'cb': True, 'ret': tup, 'coro': i == 1, 'same_data': i > 0, 'same_ret': i > 0})
+        out.append({'side': side, 'msgs': C.unjsonable(C.jsonable(reuse))})
     return out
 
 
@@ -170,7 +189,7 @@ class Session:
         self.cfg = cfg
         self.nss = nss
         self.w = W().E2EWorld(cfg['mode'], cfg['serializer'], cfg['framing'], nss, rng,
-                              async_handlers=cfg['async_handlers'])
+                              async_handlers=cfg['async_handlers'], settle=cfg.get('settle', 'frame'))
         self.ids = {'client': {}, 'server': {}}
         self.ntok = 0
 
@@ -186,15 +205,23 @@ class Session:
         w.errors = []
         w.take_wire()
         sent = []
+        held = []                # the application's own objects: (payload passed, value the handler returns)
+        prev = [None, None]
         for m in burst['msgs']:
             w.handler(peer, m['ns'], m['ev'], coro=m['coro'])
-            w.rets[peer].append(C.unjsonable(C.jsonable(m['ret'])))      # a private copy
+            # m['data'] / m['ret'] are never handed to the library: they are the deep copies the
+            # oracle judges against.  The application's object is a separate copy — or, for
+            # `same_data` / `same_ret`, the very object used for the previous message.
+            data = prev[0] if m.get('same_data') and held else C.unjsonable(C.jsonable(m['data']))
+            ret = prev[1] if m.get('same_ret') and held else C.unjsonable(C.jsonable(m['ret']))
+            prev = [data, ret]
+            held.append((data, ret))
+            w.rets[peer].append(ret)
             mid = None
             tok = None
             if m['cb']:
                 c = self.ids[side]
                 mid = c[m['ns']] = c.get(m['ns'], 0) + 1
-            data = C.unjsonable(C.jsonable(m['data']))
             if m['kind'] == 'call':
                 res = w.call(side, m['ev'], data, m['ns'])
             else:
@@ -211,7 +238,7 @@ class Session:
         wire = w.take_wire()
         fwd, rev = ('c2s', 's2c') if side == 'client' else ('s2c', 'c2s')
         return {'sent': sent, 'log': w.log, 'errors': list(w.errors), 'fwd': wire[fwd], 'rev': wire[rev],
-                'leftover_rets': len(leftover)}
+                'leftover_rets': len(leftover), 'held': held}
 
 
 def oracle(burst, obs):
@@ -260,6 +287,14 @@ def oracle(burst, obs):
                              % (i, s['res'][1], m['ret'], normalise(m['ret'])))
         elif s['res'] != ('ok', None):
             fails.append('message %d: %s() ended with %r' % (i, m['kind'], s['res']))
+    # ... and the application still holds what it passed / returned
+    for i, (m, (data, ret)) in enumerate(zip(msgs, obs.get('held', []))):
+        if not C.same(data, m['data']):
+            fails.append('message %d: the payload object passed to %s() was modified by the library: now %r, '
+                         'was %r' % (i, m['kind'], data, m['data']))
+        if not C.same(ret, m['ret']):
+            fails.append('message %d: the object the handler returned was modified by the library: now %r, '
+                         'was %r' % (i, ret, m['ret']))
     return fails
 
 
@@ -409,6 +444,8 @@ def run_case(ctx, drv, cfg, nss, bursts, stats):
             stats['msgs'] += len(burst['msgs'])
             ctx.count('cfg.' + cfg_name(cfg), len(burst['msgs']))
             ctx.count('async_handlers.%s' % cfg['async_handlers'], len(burst['msgs']))
+            if cfg['async_handlers']:
+                ctx.count('settle.%s' % cfg.get('settle', 'frame'), len(burst['msgs']))
             ctx.count('dir.%s' % burst['side'], len(burst['msgs']))
             ctx.count('burst_len.%d' % len(burst['msgs']))
             for m in burst['msgs']:
@@ -418,6 +455,10 @@ def run_case(ctx, drv, cfg, nss, bursts, stats):
                 ctx.count('ret.' + shape(m['ret']))
                 if m['ns'] != '/':
                     ctx.count('ns.non_default')
+                if m.get('same_data'):
+                    ctx.count('reuse.same_payload_object')
+                if m.get('same_ret'):
+                    ctx.count('reuse.same_returned_object')
                 for v in (m['data'], m['ret'] if m['cb'] else None):
                     if nontrivial(v):
                         stats['nontrivial'].add(repr(v))
@@ -452,8 +493,10 @@ def run_case(ctx, drv, cfg, nss, bursts, stats):
 
 def shrink(ctx, cfg, nss, burst, rp):
     """a single message of the burst, alone in a fresh session, if that still fails"""
-    for i, m in enumerate(burst['msgs']):
-        one = {'side': burst['side'], 'msgs': [m]}
+    cands = [(i, [m]) for i, m in enumerate(burst['msgs'])]
+    cands += [(i, burst['msgs'][i - 1:i + 1]) for i in range(1, len(burst['msgs']))]
+    for i, ms in cands:
+        one = {'side': burst['side'], 'msgs': ms}
         try:
             ses = Session(cfg, nss, ctx.rng)
         except C.Infra:
@@ -523,11 +566,14 @@ def run(ctx):
         nbursts = ctx.scale(5, 8)
         for mode, ser, framing in CONFIGS:
             for ah in (False, True):
-                cfg = {'mode': mode, 'serializer': ser, 'framing': framing, 'async_handlers': ah}
+                cfg = {'mode': mode, 'serializer': ser, 'framing': framing, 'async_handlers': ah,
+                       'settle': 'batch' if ah else 'frame'}
                 # the corners of the tuple/None/one rule, in every configuration
                 nss = ['/', rng.choice(NS_POOL)]
                 run_case(ctx, drv, cfg, nss, corner_bursts(cfg, nss), stats)
-                for _ in range(sessions):
+                for k in range(sessions):
+                    if ah:
+                        cfg = dict(cfg, settle='batch' if k % 2 == 0 else 'frame')
                     nss = gen_namespaces(rng)
                     bursts = [gen_burst(rng, cfg, nss) for _ in range(nbursts)]
                     run_case(ctx, drv, cfg, nss, bursts, stats)
@@ -554,8 +600,9 @@ def run(ctx):
         '(the catch-all registration key)',
         'payloads: string keys other than "_placeholder", ints within 64 bits, finite floats, no lone surrogates, '
         'tuples only at top level',
-        'one sender at a time (concurrent emitters are excluded by the property); handlers run inline or are '
-        'joined after every delivered frame (server async_handlers=True, needed for Server.call)',
+        'one sender at a time (concurrent emitters are excluded by the property); handlers run inline, or (server '
+        'async_handlers=True, needed for Server.call) are started in spawn order after every delivered frame / '
+        'after the whole flush (frames arriving back to back) and joined',
         'acknowledgement ids count from 1 per namespace (client) / per sid (server): used to predict the frames',
     ]
     C.fold_proof_failures(ctx)
